@@ -93,3 +93,103 @@ def pv_call(fn, *args):
         return pv(fn(*args))
     except Exception as e:  # noqa
         return f'(PErr {s(type(e).__name__)})'
+
+
+# ------------------------------------------------------------------ SF.Value literals
+import datetime as _dt
+import math as _math
+
+
+def val(v):
+    '''Python / NumPy scalar (cell or label) -> SF.Value.val literal. Raises ValueError outside the model.'''
+    if v is None:
+        return 'VNone'
+    if isinstance(v, (bool, np.bool_)):
+        return f'(VBool {b(v)})'
+    if isinstance(v, (int, np.integer)):
+        return f'(VInt {z(v)})'
+    if isinstance(v, (float, np.floating)):
+        f = float(v)
+        if f != f:
+            return 'VNaN'
+        if _math.isinf(f):
+            return f'(VInf {b(f < 0)})'
+        n, d = f.as_integer_ratio()
+        return f'(VFlt {z(n)} {z(d)})'
+    if isinstance(v, (str, np.str_)):
+        return f'(VStr {s(str(v))})'
+    if isinstance(v, (bytes, np.bytes_)):
+        return f'(VBytes {s(bytes(v).decode("ascii"))})'
+    if isinstance(v, np.datetime64):
+        if np.isnat(v):
+            return 'VNaT'
+        unit = np.datetime_data(v.dtype)[0]
+        return f'(VDt {_UNITS[unit]} {z(v.astype("int64"))})'
+    if isinstance(v, np.timedelta64):
+        if np.isnat(v):
+            return 'VNaT'
+        unit = np.datetime_data(v.dtype)[0]
+        return f'(VTd {_UNITS[unit]} {z(v.astype("int64"))})'
+    if isinstance(v, _dt.date) and not isinstance(v, _dt.datetime):
+        return f'(VDt UD {z((v - _dt.date(1970, 1, 1)).days)})'
+    if isinstance(v, (tuple, list)):
+        return '(VTup ' + lst([val(x) for x in v]) + ')'
+    raise ValueError(f'no val literal for {type(v).__name__} {v!r}')
+
+
+def vlist(items):
+    return lst([val(x) for x in items])
+
+
+def labels(index):
+    '''Labels of a static-frame index as Python values (tuples for hierarchical).'''
+    if getattr(index, 'depth', 1) > 1:
+        return [tuple(x) for x in index.__iter__()]
+    return list(index.values.tolist()) if index.values.dtype.kind not in 'Mm' else list(index.values)
+
+
+def array_vals(a):
+    '''1-D ndarray -> list of Python/NumPy scalars preserving the element class.'''
+    if a.dtype.kind in 'Mm':
+        return list(a)
+    return a.tolist()
+
+
+def oseries(sr):
+    return (f'(mk_oseries {vlist(labels(sr.index))} {vlist(array_vals(sr.values))} {dtype(sr.dtype)} {val(sr.name)})')
+
+
+def oframe(fr):
+    cols = []
+    for j in range(fr.shape[1]):
+        a = fr._blocks._extract_array_column(j) if hasattr(fr._blocks, '_extract_array_column') else fr.iloc[:, j].values
+        cols.append(f'({dtype(a.dtype)}, {vlist(array_vals(a))})')
+    return f'(mk_oframe {vlist(labels(fr.index))} {vlist(labels(fr.columns))} {lst(cols)} {val(fr.name)})'
+
+
+ERR_CLASSES = {
+    'KeyError': 'KeyError', 'IndexError': 'IndexError', 'ValueError': 'ValueError', 'TypeError': 'TypeError',
+    'ErrorInitIndex': 'ErrorInitIndex', 'ErrorInitFrame': 'ErrorInitFrame', 'ErrorInitSeries': 'ErrorInitSeries',
+    'ErrorInitTypeBlocks': 'ErrorInitTypeBlocks', 'LocEmpty': 'KeyError', 'LocInvalid': 'KeyError',
+    'ErrorInitIndexLevel': 'ErrorInitIndex', 'ErrorInitIndexNonUnique': 'ErrorInitIndex',
+    'ErrorInitBus': 'ErrorInitBus', 'StoreFileMutation': 'StoreFileMutation', 'NotImplementedError': 'NotImplementedError',
+    'ZeroDivisionError': 'ZeroDivisionError', 'AxisInvalid': 'AxisInvalid', 'RuntimeError': 'RuntimeError',
+    'AttributeError': 'AttributeError', 'OverflowError': 'OverflowError',
+}
+
+
+def err_class(e):
+    '''Exception -> small enum string (the model's Err e).'''
+    for cls in type(e).__mro__:
+        if cls.__name__ in ERR_CLASSES:
+            return ERR_CLASSES[cls.__name__]
+    return type(e).__name__
+
+
+def res(fn, printer):
+    '''Run fn(); print its result with `printer` as (Ok lit) or the exception as (Err "cls"). Returns (text, value_or_exc).'''
+    try:
+        out = fn()
+    except Exception as e:  # noqa
+        return f'(Err {s(err_class(e))})', e
+    return f'(Ok {printer(out)})', out
